@@ -35,6 +35,9 @@ std::string HEXExpression::hex(Integer val, Integer n)
   Integer s = 0;
   unsigned char len = 0;
   char buf[2 * sizeof(Integer)];
+  /* more leading zeros than digits makes no difference (and n += 1 would overflow near INT64_MAX) */
+  if (n > Integer(sizeof(buf)))
+    n = Integer(sizeof(buf));
 
   for (int d = 4 * (sizeof(buf) - 1); d > 0; d -= 4)
   {
